@@ -1,7 +1,7 @@
 (* Pins between the tables regenerated from the sources (GeneratedTables.v, Generated.v) and the
    hand-written parts of the lexer model: if a token or regular expression of src/lexer/token.rs
    changes, these stop compiling and the lexer model has to be revisited. *)
-From DTR Require Import Prelude Ast Generated GeneratedTables Lexer Parser.
+From DTR Require Import Prelude I64 Ast Generated GeneratedTables FramedMap Lexer Parser Eval.
 From Coq Require Import String Ascii.
 Local Open Scope string_scope.
 
@@ -53,4 +53,18 @@ Proof. destruct k; reflexivity. Qed.
 Lemma func_table_pinned : func_table = gen_func_table.
 Proof. reflexivity. Qed.
 Lemma keywords_pinned : keywords = gen_keywords.
+Proof. reflexivity. Qed.
+
+(* ---- the operator arms, the width mask and the verdict function of the model ARE those of the
+   source (translated arm by arm from src/expr.rs, src/data_row_iterator.rs, src/value.rs) *)
+Lemma binop_eval_pinned : forall op l r,
+  binop_eval op l r =
+  if (r =? 0)%Z && existsb (binop_beq op) gen_div_guard then Err XE_DivisionByZero
+  else Ok (gen_binop_value op l r).
+Proof. intros op l r. unfold binop_eval. destruct op; reflexivity. Qed.
+Lemma unop_eval_pinned : forall op v, unop_eval op v = gen_unop_value op v.
+Proof. destruct op; reflexivity. Qed.
+Lemma bit_mask_pinned : forall bits, bit_mask bits = gen_bit_mask bits.
+Proof. reflexivity. Qed.
+Lemma expected_check_pinned : forall e o, expected_check e o = gen_expected_check e o.
 Proof. reflexivity. Qed.
